@@ -186,6 +186,12 @@ class C06(Spec):
         return None
 
     def known_key(self, case, res):
+        # the recorded findings are about COST (time, output size): a panic or any other failure on such documents is new
+        why = res.get("why") or ""
+        pan = res.get("panic")
+        hang = pan is not None and pan.startswith("hang")          # the watchdog gave up: cost again
+        if (pan is not None and not hang) or not (hang or self.is_timing_reason(why) or " runes" in why):
+            return None
         if case.op == "rendernm":
             d = nest_depth(case.meta["content"])
             w = min([x for x in case.meta["widths"]] + [80])
